@@ -43,6 +43,102 @@ def roundtrip(pkg, topname=None):
     return {"differs": first_difference(observe.pkg_json_full(pkg), observe.pkg_json_full(pkg2))}
 
 
+def show_conn(c):
+    """an imported connectable, written as the Lean driver writes the model's (`showConn`)"""
+    if isinstance(c, h.Signal):
+        return c.name
+    if isinstance(c, h.Slice):
+        idx = c.index
+        return f"{show_conn(c.parent)}[{idx.start}:{idx.stop}]" if isinstance(idx, slice) else f"{show_conn(c.parent)}[{idx}]"
+    if isinstance(c, h.Concat):
+        return "{" + ",".join(show_conn(p) for p in c.parts) + "}"
+    return f"<{type(c).__name__}>"
+
+
+def imported_json(pkg):
+    """from_proto(pkg), every module as the importer left it (before any elaboration): internal signals and ports in dict order,
+    instances and their connections in dict order."""
+    ns = h.from_proto(pkg)
+    out = []
+    for pm in pkg.modules:
+        node = ns
+        parts = pm.name.split(".")
+        for part in parts:
+            node = getattr(node, part)
+        m = node
+        out.append({"name": pm.name,
+                    "signals": [[s.name, s.width] for s in m.signals.values()],
+                    "ports": [[s.name, s.width, s.direction.name] for s in m.ports.values()],
+                    "instances": [{"n": i.name, "conns": [[pn, show_conn(c)] for pn, c in i.conns.items()]} for i in m.instances.values()]})
+    return out
+
+
+def impl_import(case):
+    try:
+        import build
+        b = build.build(case["design"], case.get("style", "proc"))
+        pkg = h.to_proto(b.top)
+    except Exception as ex:  # noqa
+        return {"reject": common.errstr(ex)}
+    try:
+        return {"pkg": observe.pkg_json(pkg), "imported": imported_json(pkg)}
+    except Exception as ex:  # noqa
+        return {"pkg": observe.pkg_json(pkg), "import_error": common.errstr(ex)}
+
+
+def judge_import(case, im, mo):
+    if "reject" in im:
+        return
+    if "import_error" in im:
+        yield ("pred", f"an exported package cannot be imported: {im['import_error']}")
+        return
+    for got, want in zip(im["imported"], mo["modules"]):
+        name = want["module"]
+        if not want["shape"]:
+            yield ("corr", f"module {name} of an exported package is not of the shape module_roundtrip assumes")
+        if "error" in want["import"]:
+            yield ("corr", f"the model refuses to import module {name}: {want['import']['error']}")
+            continue
+        w = want["import"]["ok"]
+        w = dict(w, name=name)
+        if got != w:
+            yield ("corr", f"imported module {name} differs from the model's: {c11_diff(got, w)}")
+        if want["import"]["export_back"] is not True:
+            yield ("corr", f"the model's export of its imported module {name} is not the module ({want['import']['export_back']})")
+
+
+def c11_diff(a, b):
+    for k in ("signals", "ports", "instances"):
+        if a.get(k) != b.get(k):
+            return f"{k}: {str(a.get(k))[:300]} vs {str(b.get(k))[:300]}"
+    return "names"
+
+
+def line_import(case, im=None):
+    return None
+
+
+class ImportStream(common.Stream):
+    """needs the implementation's package before the model can be asked"""
+
+    def run(self, ctx, cases):
+        rep = ctx.rep
+        cases = list(cases)
+        impls = common.pmap(impl_import, cases, chunk=self.chunk)
+        idx = [k for k, im in enumerate(impls) if "pkg" in im]
+        outs = ctx.drv.run([{"prop": "RT", "op": "package", "pkg": impls[k]["pkg"]} for k in idx])
+        models = dict(zip(idx, outs))
+        for k, (c, im) in enumerate(zip(cases, impls)):
+            rep.count(self.name, json.dumps(c, default=str), nontrivial="pkg" in im)
+            for v in judge_import(c, im, models.get(k)) or []:
+                rep.fail(v[0], {"stream": self.name, "case": c}, {"detail": v[1]})
+        if idx:
+            rep.sample({"stream": self.name, "imported": impls[idx[0]].get("imported", [])[:1], "model": models[idx[0]]["modules"][:1]})
+
+
+SI = ImportStream("import_model", impl_import, line_import, judge_import, chunk=8)
+
+
 def first_difference(a, b, path=""):
     if type(a) != type(b):
         return f"{path}: {a!r} != {b!r}"
@@ -122,6 +218,8 @@ def run(ctx):
         else:
             stats["differs" if "differs" in rt else "error"] += 1
             rep.fail("pred", {"stream": "generated", "case": c}, {"why": "round trip does not reproduce the package", "roundtrip": str(rt)[:1500]})
+    # the module-level model (RoundTrip.lean: importModule / exportModule / Shape) against what from_proto really builds
+    SI.run(ctx, [dict(c, roundtrip=False) for c in cases[: (120 if ctx.quick else 2000)]])
     c06 = __import__("props.c06", fromlist=["x"])
     labelled = []
     for label, mk in c06.builtin_packages(ctx) + param_space_packages(rng, 24 if ctx.quick else 400):
@@ -133,6 +231,17 @@ def run(ctx):
             rep.fail("corr", {"stream": "builtin", "label": label}, f"export raised {type(ex).__name__}: {str(ex)[-200:]}")
     ex_pkgs, _ = c06.examples_packages()
     labelled += [(f"example:{i}", p, p.modules[-1].name) for i, p in enumerate(ex_pkgs) if p.modules]
+    # the module-level model on these packages too
+    pj = [observe.pkg_json(pkg) for _, pkg, _ in labelled]
+    mos = ctx.drv.run([{"prop": "RT", "op": "package", "pkg": j} for j in pj])
+    for (label, pkg, top), j, mo in zip(labelled, pj, mos):
+        try:
+            im = {"pkg": j, "imported": imported_json(pkg)}
+        except Exception as ex:  # noqa
+            im = {"pkg": j, "import_error": common.errstr(ex)}
+        rep.count("import_model", "builtin:" + label)
+        for v in judge_import(None, im, mo) or []:
+            rep.fail(v[0], {"stream": "import_model", "label": label}, {"detail": v[1]})
     for label, pkg, top in labelled:
         rep.count("builtin", label)
         rt = roundtrip(pkg, top)
